@@ -63,12 +63,19 @@ func HarnessC13(split int) {
 	}
 	log := w.Sent(c)
 	if !known {
-		// C15's concern: the client must not wait forever; here we only require that nothing wrong is delivered
-		replies, _ := splitReplies(log)
+		// the node named by the redirect is unknown: the request is answered with an error in its
+		// place (nobody waits forever, C15) and the other request is unaffected
+		replies, rest := splitReplies(log)
+		verifrt.Assert(len(replies) == 2 && len(rest) == 0, "unknown_target_both_requests_answered")
 		for j, r := range replies {
 			own := len(r) == len(reqs[j].want) && isPrefix(r, reqs[j].want)
-			verifrt.Assert(verifrt.Or(own, isProxyError(r)), "unknown_target_no_wrong_reply")
+			if reqs[j] == redirected {
+				verifrt.Assert(isProxyError(r), "unknown_target_answered_with_proxy_error")
+			} else {
+				verifrt.Assert(own, "other_request_unaffected")
+			}
 		}
+		verifrt.Assert(c.Opened() && !w.Shutdown, "client_and_proxy_stay_up")
 		verifrt.Cover("end", true)
 		return
 	}
